@@ -102,6 +102,7 @@ Section flag.
   Lemma flag_waiters : t_waiters (flag i tag b t) = t_waiters t. Proof. unfold flag. by destruct b. Qed.
   Lemma flag_now : t_now (flag i tag b t) = t_now t. Proof. unfold flag. by destruct b. Qed.
   Lemma flag_pending : t_pending (flag i tag b t) = t_pending t. Proof. unfold flag. by destruct b. Qed.
+  Lemma flag_mem : t_mem (flag i tag b t) = t_mem t. Proof. unfold flag. by destruct b. Qed.
   Lemma flag_fail : t_fail (flag i tag b t) = (if b then [] else [(i, tag)]) ++ t_fail t.
   Proof. unfold flag. by destruct b. Qed.
   Lemma flag_true : b = true → flag i tag b t = t. Proof. by intros ->. Qed.
@@ -178,12 +179,13 @@ Definition own_flags (w : twaiter) (at_ : Z) (r : resp) (cause : option err) : l
   end.
 
 (** the checks of a grant that look at the tracker state: capacity and queue order *)
-Definition cap_ok (w : twaiter) (a : Z) (hs : list hold) : bool :=
-  Z.of_nat (length (on_name (tw_name w) (ef a hs))) <? tw_size w.
+Definition pend_on (n : str) (pend : list str) : Z := Z.of_nat (length (List.filter (λ n', bool_decide (n' = n)) pend)).
+Definition cap_ok (w : twaiter) (a : Z) (hs : list hold) (pend : list str) : bool :=
+  Z.of_nat (length (on_name (tw_name w) (ef a hs))) - pend_on (tw_name w) pend <? tw_size w.
 Definition fifo_ok (w : twaiter) (ws : list twaiter) : bool :=
   match won (tw_name w) ws with w0 :: _ => bool_decide (tw_id w0 = tw_id w) | [] => false end.
-Definition grant_flags (w : twaiter) (a : Z) (hs : list hold) (ws : list twaiter) : list string :=
-  (if cap_ok w a hs then [] else ["C01:grant-over-capacity"%string]) ++
+Definition grant_flags (w : twaiter) (a : Z) (hs : list hold) (ws : list twaiter) (pend : list str) : list string :=
+  (if cap_ok w a hs pend then [] else ["C01:grant-over-capacity"%string]) ++
   (if fifo_ok w ws then [] else ["C03:not-fifo"%string]).
 
 Definition new_hold (w : twaiter) (a : Z) (r : resp) : list hold :=
@@ -201,14 +203,14 @@ Proof. unfold t_waiter_done, findw. by intros ->. Qed.
 
 Lemma wd_known cfg i wid a r cause t w rest : findw wid (t_waiters t) = w :: rest →
   t_waiter_done cfg i wid a r cause t =
-    TState (ef a (t_holds t) ++ new_hold w a r) (rmw wid (t_waiters t)) (t_now t) (t_pending t)
-           (map (pair i) ((if is_grant r then grant_flags w a (t_holds t) (t_waiters t) else []) ++ own_flags w a r cause)
+    TState (ef a (t_holds t) ++ new_hold w a r) (rmw wid (t_waiters t)) (t_now t) (t_pending t) (t_mem t)
+           (map (pair i) ((if is_grant r then grant_flags w a (t_holds t) (t_waiters t) (t_pending t) else []) ++ own_flags w a r cause)
             ++ t_fail t).
 Proof.
   intros E. pose proof (findw_id _ _ _ _ E) as [Hid _]. unfold t_waiter_done. unfold findw in E. rewrite E.
   destruct r as [[] key e| |]; simpl.
-  - unfold grant_flags, cap_ok, fifo_ok, flag, count_name, waiters_on, won, on_name. simpl. rewrite Hid.
-    destruct (Z.of_nat _ <? tw_size w); destruct (match List.filter _ (t_waiters t) with [] => false | _ => _ end);
+  - unfold grant_flags, cap_ok, pend_on, fifo_ok, flag, count_name, waiters_on, won, on_name. simpl. rewrite Hid.
+    destruct (Z.of_nat _ - _ <? tw_size w); destruct (match List.filter _ (t_waiters t) with [] => false | _ => _ end);
       case_bool_decide; simpl; rewrite ?app_nil_r; reflexivity.
   - rewrite app_nil_r. unfold flag, wait_dl.
     destruct e as [[]|]; simpl; try case_bool_decide; simpl; reflexivity.
@@ -257,6 +259,14 @@ Proof.
   - by rewrite wd_unknown.
   - by erewrite wd_known.
 Qed.
+Lemma done1_mem cfg i cause t c : t_mem (done1 cfg i cause t c) = t_mem t.
+Proof.
+  unfold done1. destruct (findw (c_wid c) (t_waiters t)) as [|w rest] eqn:E.
+  - by rewrite wd_unknown.
+  - by erewrite wd_known.
+Qed.
+Lemma done_list_mem cfg i cause cs t : t_mem (done_list cfg i cause cs t) = t_mem t.
+Proof. revert t. induction cs as [|c cs IH]; intros t; [done|]. simpl. by rewrite IH, done1_mem. Qed.
 Lemma done_list_now cfg i cause cs t : t_now (done_list cfg i cause cs t) = t_now t.
 Proof. revert t. induction cs as [|c cs IH]; intros t; [done|]. simpl. by rewrite IH, done1_now. Qed.
 Lemma done_list_pending cfg i cause cs t : t_pending (done_list cfg i cause cs t) = t_pending t.
